@@ -59,6 +59,12 @@ def jobs_for(prop, tier):
     raise KeyError(prop)
 
 
+def extra_backends(prop, tier, seed):
+    from . import kani
+    hs = kani.harnesses_for(prop, tier)
+    return kani.run(hs) if hs else None
+
+
 def meta_for(prop):
     m = {'assumptions': list(A_COMMON), 'trusted_base': list(TB_COMMON)}
     if prop == 'C19':
